@@ -107,7 +107,7 @@ func main() {
 	rep.Rule = "portset: a case = (ports list, range string); structured strings from boundary items (block edges, 1, 65535, adjacent/overlapping ranges, >16 ranges) and malformed pieces, plus random garbage; " +
 		"every case compares all 65535 ports across bit set / range set / router criterion / model / brute force; non-trivial = accepted, 1 <= count < 65535; distinct by (ports, string). " +
 		"domainset: a case = rule list (domain/suffix/keyword/regexp over a 6-label vocabulary incl. the empty label, sizes {0,1,4,5,16,17,100} per kind) rendered as text with CRLF/blank/comment/hint noise; " +
-		"representations text, gob, text>text, gob>text, text>text>gob, 3 direct builder combinations and their gob conversion (and every insertion order of <= 4 (quick) / 6 (thorough) suffix rules) are probed on names of <= 4 labels + neighbours of the rules; " +
+		"representations text, gob, text>text, gob>text, text>text>gob, 3 direct builder combinations and their gob conversion (and every insertion order of <= 4 (quick) / 6 (thorough) suffix rules) are probed on 30 (quick) / 60 (thorough; every 8th case all 1554) names of <= 4 labels from the vocabulary + neighbours of the rules (rule, label.rule, labelrule, rule.label, .rule, rule., rule minus a byte at either end, rule minus its first label); " +
 		"non-trivial = at least one probe matches and one does not; distinct by (rules, text). " +
 		"prefixset: a case = prefix list + boundary addresses; load, write (both writers), reload, compare membership and prefix sets; non-trivial = at least one prefix; distinct by text."
 
